@@ -2,7 +2,7 @@
 from __future__ import annotations
 
 from fv import pyimpl, space
-from fv.refmodel import Singular, ref_eval
+from fv.refmodel import Singular, ref_eval, ref_eval_mag
 
 ID = "C01"
 LEVEL = "exploration"
@@ -114,11 +114,14 @@ def eval_case(case):
         return {"n": 1, "fails": fails}
     n = skipped = 0
     worst = 0.0
-    for env in space.grid_points(st + ct, case["per_symbol"], case["seed"], case["dts"]):
+    for env in space.grid_points(st + ct, case["per_symbol"], case["seed"], case["dts"], specials=space.special_values(list(asts.values())),
+                                 large=all(space.is_polynomial(a_) for a_ in asts.values())):
         full = dict(env)
         full.update(cal)
         try:
-            ref = {s: ref_eval(asts[s], full) for s in st}
+            refm = {s: ref_eval_mag(asts[s], full) for s in st}
+            ref = {s: v for s, (v, _) in refm.items()}
+            mag = {s: float(m_) for s, (_, m_) in refm.items()}
         except Singular:
             skipped += 1
             continue
@@ -142,12 +145,12 @@ def eval_case(case):
             for s in st:
                 err = abs(o[s] - float(ref[s]))
                 worst = max(worst, err / max(1.0, abs(float(ref[s]))))
-                if not pyimpl.close(o[s], ref[s], REL):
+                if not pyimpl.close(o[s], ref[s], REL, mag[s] if mag[s] > 1e6 else 1.0):
                     fails.append({"key": "value-mismatch",
                                   "what": f"{d['name']} cse={cse}: state '{s}' = {o[s]!r}, symbolic value "
                                           f"{float(ref[s])!r} at {env} cal={cal}"})
         for s in st:
-            if not pyimpl.close(outs[True][s], outs[False][s], 1e-12):
+            if not pyimpl.close(outs[True][s], outs[False][s], 1e-12, mag[s] if mag[s] > 1e6 else 1.0):
                 fails.append({"key": "cse-changes-result",
                               "what": f"{d['name']}: state '{s}' cse on {outs[True][s]!r} != off {outs[False][s]!r} at {env}"})
         if len(fails) > 5:
